@@ -156,6 +156,19 @@ def mapInsert (k : String) (v : Val) : List (String × Val) → List (String × 
     else if k < k' then (k, v) :: (k', v') :: rest
     else (k', v') :: mapInsert k v rest
 
+def escapeChar (quote : Char) (c : Char) : String :=
+  if c = quote then "\\" ++ String.singleton c
+  else if c = '\\' then "\\\\"
+  else if c = '\n' then "\\n"
+  else if c = '\r' then "\\r"
+  else if c = '\t' then "\\t"
+  else String.singleton c
+
+/-- Python-style string repr: single quotes unless the string has a `'` and no `"` -/
+def reprStr (s : String) : String :=
+  let quote : Char := if s.toList.contains '\'' && !s.toList.contains '"' then '"' else '\''
+  String.singleton quote ++ String.join (s.toList.map (escapeChar quote)) ++ String.singleton quote
+
 mutual
   /-- `Debug` rendering, used for the elements of lists and maps -/
   def reprVal : Val → String
@@ -163,7 +176,7 @@ mutual
     | .none => "None"
     | .bool b => if b then "True" else "False"
     | .int i => toString i
-    | .str s => "'" ++ s ++ "'"
+    | .str s => reprStr s
     | .list xs => "[" ++ reprList xs ++ "]"
     | .map kvs => "{" ++ reprPairs kvs ++ "}"
     | .macro name .. => "<macro " ++ name ++ ">"
@@ -173,8 +186,8 @@ mutual
     | x :: y :: rest => reprVal x ++ ", " ++ reprList (y :: rest)
   def reprPairs : List (String × Val) → String
     | [] => ""
-    | [(k, v)] => "'" ++ k ++ "': " ++ reprVal v
-    | (k, v) :: p :: rest => "'" ++ k ++ "': " ++ reprVal v ++ ", " ++ reprPairs (p :: rest)
+    | [(k, v)] => reprStr k ++ ": " ++ reprVal v
+    | (k, v) :: p :: rest => reprStr k ++ ": " ++ reprVal v ++ ", " ++ reprPairs (p :: rest)
 end
 
 /-- `Display` rendering (what `{{ v }}` writes) -/
@@ -286,6 +299,12 @@ def floordivInt (x y : Int) : Res Val :=
 def remInt (x y : Int) : Res Val :=
   if y = 0 then .error .invalidOp else chkInt (Int.emod x y)
 
+/-- `"ab" * 3`; a negative count is an error, results above 10^8 bytes are not in the fragment -/
+def repeatStr (x : String) (n : Int) : Res Val :=
+  if n < 0 then .error .invalidOp
+  else if x.utf8ByteSize * n.toNat > 100000 then .error .outOfFragment
+  else .ok (.str (String.join (List.replicate n.toNat x)))
+
 def arith (op : BinOp) (a b : Val) : Res Val :=
   match op with
   | .add => match a, b with
@@ -294,8 +313,13 @@ def arith (op : BinOp) (a b : Val) : Res Val :=
     | _, _ => intOp (fun x y => chkInt (x + y)) a b
   | .sub => intOp (fun x y => chkInt (x - y)) a b
   | .mul => match a, b with
-    | .str _, _ => .error .outOfFragment
-    | _, .str _ => .error .outOfFragment
+    | .str x, .int n => repeatStr x n
+    | .int n, .str x => repeatStr x n
+    | .str _, .str _ => .error .invalidOp
+    | .str _, .bool _ => .error .outOfFragment
+    | .bool _, .str _ => .error .outOfFragment
+    | .str _, _ => .error .invalidOp
+    | _, .str _ => .error .invalidOp
     | .list _, _ => .error .outOfFragment
     | _, .list _ => .error .outOfFragment
     | _, _ => intOp (fun x y => chkInt (x * y)) a b
@@ -445,9 +469,12 @@ end
 
 /-! ## The loop variable -/
 
+/-- `length = none`: the sequence is a lazy iterator of unknown length (the characters of a
+string), for which `syntax.rs` documents that `length`, `revindex`, `revindex0` are undefined (and
+`last` never true). -/
 structure LoopInfo where
   index0 : Nat
-  length : Nat
+  length : Option Nat
   prev : Option Val
   next : Option Val
   deriving Repr, Inhabited
@@ -457,21 +484,28 @@ def loopVal (l : LoopInfo) : Val :=
   .map [ ("depth", .int 1), ("depth0", .int 0),
          ("first", .bool (l.index0 == 0)),
          ("index", .int (l.index0 + 1)), ("index0", .int l.index0),
-         ("last", .bool (l.index0 + 1 == l.length)),
-         ("length", .int l.length),
+         ("last", .bool (match l.length with | some n => l.index0 + 1 == n | none => false)),
+         ("length", match l.length with | some n => .int n | none => .undef),
          ("nextitem", l.next.getD .undef), ("previtem", l.prev.getD .undef),
-         ("revindex", .int (l.length - l.index0)), ("revindex0", .int (l.length - l.index0 - 1)) ]
+         ("revindex", match l.length with | some n => .int (n - l.index0) | none => .undef),
+         ("revindex0", match l.length with | some n => .int (n - l.index0 - 1) | none => .undef) ]
 
 /-- The loop bookkeeping, computed the way an iterator-driven loop does it: a running counter,
 the previous item carried along, the next item peeked from the rest.  `len` is the length of the
 whole sequence, fixed before the first iteration. -/
-def loopInfosFrom (len : Nat) : Nat → Option Val → List Val → List LoopInfo
+def loopInfosFrom (len : Option Nat) : Nat → Option Val → List Val → List LoopInfo
   | _, _, [] => []
   | idx, prev, x :: rest =>
     { index0 := idx, length := len, prev := prev, next := rest.head? } ::
       loopInfosFrom len (idx + 1) (some x) rest
 
-def loopInfos (xs : List Val) : List LoopInfo := loopInfosFrom xs.length 0 none xs
+def loopInfos (sized : Bool) (xs : List Val) : List LoopInfo :=
+  loopInfosFrom (if sized then some xs.length else none) 0 none xs
+
+/-- is the length of the iterated value known up front?  (everything but a string) -/
+def isSized : Val → Bool
+  | .str _ => false
+  | _ => true
 
 /-! ## Macro argument binding (`prepare_args`) -/
 
@@ -748,10 +782,14 @@ def exec : Nat → Scope → List Nat → State → Stmt → Res (State × Flow)
       let kept ← match filter with
         | none => .ok xs
         | some cond => filterItems fuel ctx σ.heap stack target cond xs
+      -- a filtered loop walks the list of the items that passed
+      let sized := match filter with
+        | none => isSized v
+        | some _ => true
       match kept with
       | [] => execBlock fuel ctx stack σ els
       | _ :: _ => do
-        let σ' ← execIters fuel ctx stack σ target body (kept.zip (loopInfos kept))
+        let σ' ← execIters fuel ctx stack σ target body (kept.zip (loopInfos sized kept))
         .ok (σ', .normal)
     | .set target e => do
       let v ← evalExpr fuel ctx σ.heap stack e
